@@ -73,6 +73,7 @@ type World struct {
 	faultsOn bool
 	// stream faults decided by the scenario: key = from|to|method
 	OnWire func(from, to, method, dir string, b []byte) // observation hook (C15/C20)
+	OnAnswer func(from, to, method string, ok bool)      // the caller received the answer of a unary call
 	// stream behaviour hooks
 	StreamStallAfter func(from, to, method string) (k int, d time.Duration) // k<0: none
 	refuseSync       bool
@@ -294,6 +295,9 @@ func (w *World) CallRaw(ctx context.Context, from, to, method string, body []byt
 	}
 	select {
 	case r := <-done:
+		if h := w.OnAnswer; h != nil {
+			h(from, to, method, r.err == nil)
+		}
 		if r.err != nil {
 			return r.err
 		}
